@@ -6,6 +6,7 @@ import (
 	"bytes"
 	"context"
 	"fmt"
+	"io"
 	"os"
 	"os/exec"
 	"path/filepath"
@@ -43,11 +44,76 @@ var (
 func newCtx(fileLine bool) *build.Context {
 	impOnce.Do(func() {
 		impFset = token.NewFileSet()
-		imp = packages.NewImporter(impFset)
+		// run `go list` from the tree under test (a module), not from the process cwd, and
+		// fill an export-data cache with ONE `go list -export -deps` (builder compC's finding:
+		// otherwise every compile re-runs go list for missing optional packages, 8-20 s each)
+		imp = packages.NewImporter(impFset, Repo())
+		c := &expCache{dir: Repo(), m: map[string]string{}, fail: map[string]string{}}
+		if out, err := c.list(append([]string{"-deps"}, warmPkgs...)...); err == nil {
+			c.add(out)
+		}
+		imp.SetCache(c)
 	})
 	ctx := build.NewContext(imp, impFset)
 	ctx.LoadConfig = func(c *cl.Config) { c.NoFileLine = !fileLine; c.RelativeBase = "/" }
 	return ctx
+}
+
+type expCache struct {
+	mu   sync.Mutex
+	dir  string
+	m    map[string]string // import path -> export file
+	fail map[string]string
+}
+
+var warmPkgs = []string{
+	"fmt", "os", "reflect", "strconv", "strings", "errors", "sort", "time", "math", "bytes", "io", "sync",
+	"github.com/qiniu/x/osx", "github.com/qiniu/x/xgo", "github.com/qiniu/x/xgo/ng",
+	"github.com/qiniu/x/stringutil", "github.com/qiniu/x/stringslice", "github.com/qiniu/x/errors",
+}
+
+func (c *expCache) list(args ...string) ([]byte, error) {
+	cmd := exec.Command("go", append([]string{"list", "-e", "-export", "-f", "{{.ImportPath}}\t{{.Export}}"}, args...)...)
+	cmd.Dir = c.dir
+	cmd.Env = append(os.Environ(), "GOFLAGS=-mod=mod", "GOPROXY=off", "GOSUMDB=off", "GOTOOLCHAIN=local", "CGO_ENABLED=0")
+	var so, se bytes.Buffer
+	cmd.Stdout, cmd.Stderr = &so, &se
+	err := cmd.Run()
+	if err != nil && so.Len() == 0 {
+		return nil, fmt.Errorf("%s", strings.TrimSpace(se.String()))
+	}
+	return so.Bytes(), nil
+}
+
+func (c *expCache) add(out []byte) {
+	for _, line := range strings.Split(string(out), "\n") {
+		p := strings.SplitN(line, "\t", 2)
+		if len(p) == 2 && p[1] != "" {
+			c.m[p[0]] = p[1]
+		}
+	}
+}
+
+// Find implements packages.Cache.
+func (c *expCache) Find(dir, pkgPath string) (io.ReadCloser, error) {
+	c.mu.Lock()
+	defer c.mu.Unlock()
+	if f, ok := c.m[pkgPath]; ok {
+		return os.Open(f)
+	}
+	if e, ok := c.fail[pkgPath]; ok {
+		return nil, fmt.Errorf("%s", e)
+	}
+	out, err := c.list("-deps", pkgPath)
+	if err == nil {
+		c.add(out)
+		if f, ok := c.m[pkgPath]; ok {
+			return os.Open(f)
+		}
+		err = fmt.Errorf("no export data for %s", pkgPath)
+	}
+	c.fail[pkgPath] = err.Error()
+	return nil, err
 }
 
 // CompileFile compiles one XGo source file (name decides the kind: .xgo, .gox, .go …) to Go
